@@ -709,9 +709,10 @@ Definition default_new_dir (root : cpath) : string :=
   | _ => gen_dst_prefix ++ "-" ++ base_c root
   end.
 
-(* localizer.Run for a local target, part 1 — NewLoader: ConfirmDir(target), establishScope,
-   createNewDir.  Returns (scope, target root, newDir). *)
-Definition localize_prelude (target scope newdir : string) : prog (cpath * cpath * cpath) :=
+(* localizer.Run for a local target, part 1a — NewLoader up to the existence test of the destination:
+   ConfirmDir(target), establishScope, Exists(rawNewDir).  Only read-only effects.
+   Returns (scope, target root, raw destination argument). *)
+Definition prelude_checks (target scope newdir : string) : prog (cpath * cpath * string) :=
   dop _ <- guard_local target ;
   dop troot <- confirm_dir target ;
   (* establishScope *)
@@ -721,30 +722,39 @@ Definition localize_prelude (target scope newdir : string) : prog (cpath * cpath
   (* createNewDir *)
   let raw := if String.eqb newdir "" then default_new_dir troot else newdir in
   dop ex <- op_bool (EExists raw) ;
-  if ex then Throw XErr
-  else
-    dop _ <- op_unit (EMkdir raw) ;
-    dop r <- pcatch (confirm_dir raw) ;
-    match r with
-    | None =>
-        (* defect: newDir is still the zero value here, RemoveAll("") *)
-        Op (ERemoveAll "") (fun _ => Throw XErr)
-    | Some nd => Ret (sc, troot, nd)
-    end.
+  if ex then Throw XErr else Ret (sc, troot, raw).
 
-(* part 2 — Run after NewLoader: MkdirAll(dst), localize(), cleanup on error.
-   Returns args.NewDir.String(). *)
+(* part 1b — createNewDir: Mkdir, ConfirmDir; since d268200 the cleanup removes rawNewDir
+   (it used to remove "", the zero value of newDir). *)
+Definition prelude_create (x : cpath * cpath * string) : prog (cpath * cpath * cpath) :=
+  let '(sc, troot, raw) := x in
+  dop _ <- op_unit (EMkdir raw) ;
+  dop r <- pcatch (confirm_dir raw) ;
+  match r with
+  | None => Op (ERemoveAll raw) (fun _ => Throw XErr)
+  | Some nd => Ret (sc, troot, nd)
+  end.
+
+Definition localize_prelude (target scope newdir : string) : prog (cpath * cpath * cpath) :=
+  dop x <- prelude_checks target scope newdir ;
+  prelude_create x.
+
+(* part 2 — Run after NewLoader: MkdirAll(dst) (since d268200 with cleanup on failure),
+   localize(), cleanup on error.  Returns args.NewDir.String(). *)
 Definition localize_tail (orc : oracles) (fuel : nat) (x : cpath * cpath * cpath) : prog string :=
   let '(sc, troot, nd) := x in
   let args := mkArgs sc nd in
   let dst := join_comps nd (rel_comps sc troot) in
-  (* defect: no cleanup when this fails *)
-  dop _ <- op_unit (EMkdirAll (show_abs dst)) ;
-  dop r2 <- pcatch (localize orc args fuel (mkLc troot [] dst)) ;
-  match r2 with
-  | Some _ => Ret (show_abs nd)
-  | None => Op (ERemoveAll (show_abs nd)) (fun _ => Throw XErr)
-  end.
+  Op (EMkdirAll (show_abs dst)) (fun r0 =>
+    match r0 with
+    | RUnit =>
+        dop r2 <- pcatch (localize orc args fuel (mkLc troot [] dst)) ;
+        match r2 with
+        | Some _ => Ret (show_abs nd)
+        | None => Op (ERemoveAll (show_abs nd)) (fun _ => Throw XErr)
+        end
+    | _ => Op (ERemoveAll (show_abs nd)) (fun _ => Throw XErr)
+    end).
 
 Definition localize_run (orc : oracles) (fuel : nat) (target scope newdir : string) : prog string :=
   dop x <- localize_prelude target scope newdir ;
